@@ -289,7 +289,7 @@ class C12(Check):
             "output_length), the evaluation counter with a dict+set reference cache while caching is on. A state is (family, cache key set, "
             "caching flag); distinct_nontrivial counts distinct states after an operation. Analytic integrals are a stateless side-oracle "
             "(counted under pure_side_oracle_evaluations): analytic integral over seeded boxes vs tensor Gauss-Legendre split at the family's kinks")
-    expected_probes = ["empty_batch", "cache_off_single", "batch_with_duplicates", "reset", "cached_hit", "vectorized_3d"]
+    expected_probes = ["empty_batch", "cache_off_single", "batch_with_duplicates", "reset", "cached_hit", "vectorized_3d", "integer_typed_coordinates"]
     excluded_configs = ["FunctionGeneralizedNormal (the source marks its analytic solution as incorrect)",
                         "families whose analytic integral is itself numerical quadrature (Function base class, FunctionUQ, FunctionUQ2) or needs chaospy distributions (FunctionUQNormal*, FunctionUQWeighted, FunctionInverseTransform, FunctionPolysPCE)",
                         "FunctionCantileverBeamD (no integral; fixed 3-D physics model)"]
@@ -319,13 +319,30 @@ class C12(Check):
 
         def pt():
             return o.choice(pool) if o.random() < 0.6 else [round(a[d] + (b[d] - a[d]) * o.random(), 6) for d in range(dim)]
+        # integer lattice points of the domain: a caller may well write box corners as Python ints or hand over an integer
+        # ndarray; a whole batch of them is the only way an implementation sees integer-typed coordinates
+        lat = [[v for v in range(int(np.ceil(a[d] - 1e-12)), int(np.floor(b[d] + 1e-12)) + 1)] for d in range(dim)]
+        has_lat = all(lat)
+        ityped = has_lat and o.random() < 0.5
+
+        def ipt():
+            return [float(o.choice(lat[d])) for d in range(dim)]
         ops = []
         w = {"single": o.choice([1, 3, 5]), "batch": o.choice([1, 3, 5]), "vec2d": o.choice([0, 1, 2]), "vec3d": o.choice([0, 1]),
              "reset": o.choice([0, 1, 1]), "cache_off": o.choice([0, 0, 1]), "query": o.choice([0, 1])}
         kinds = [k for k, v in w.items() for _ in range(v)]
         for _ in range(o.randint(1, 30 if tier == "quick" else 50)):
             k = o.choice(kinds)
-            if k == "single":
+            if ityped and k in ("single", "batch", "vec2d", "vec3d") and o.random() < 0.3:
+                if k == "single":
+                    ops.append(["single", ipt(), o.choice(["tuple", "list", "array"]), "int"])
+                elif k == "batch":
+                    ops.append(["batch", [ipt() for _ in range(o.choice([1, 2, 3, 5]))], "int"])
+                elif k == "vec2d":
+                    ops.append(["vec2d", [ipt() for _ in range(o.choice([1, 2, 5]))], "int"])
+                else:
+                    ops.append(["vec3d", [[ipt() for _ in range(2)] for _ in range(o.choice([1, 2]))], "int"])
+            elif k == "single":
                 ops.append(["single", pt(), o.choice(["tuple", "list", "array"])])
             elif k == "batch":
                 n = o.choice([0, 1, 2, 3, 5, 8, 20])
@@ -400,9 +417,14 @@ class C12(Check):
         for op in sched["ops"]:
             ctx.step()
             k = op[0]
+            ityp = op[-1] == "int"                 # every coordinate of this call is handed over integer-typed
+            num = (lambda x: int(x)) if ityp else (lambda x: x)
+            dt = int if ityp else float
+            if ityp:
+                ctx.probe("integer_typed_coordinates")
             if k == "single":
                 p = op[1]
-                arg = tuple(p) if op[2] == "tuple" else (list(p) if op[2] == "list" else np.array(p, dtype=float))
+                arg = tuple(map(num, p)) if op[2] == "tuple" else (list(map(num, p)) if op[2] == "list" else np.array(p, dtype=dt))
                 if tuple(p) in model and cache_on:
                     ctx.probe("cached_hit")
                 if not cache_on:
@@ -416,17 +438,17 @@ class C12(Check):
                     ctx.probe("empty_batch"); ctx.fault("cache_event")
                 if len(set(map(tuple, pts))) < len(pts):
                     ctx.probe("batch_with_duplicates"); ctx.fault("cache_event")
-                cmp(f([tuple(p) for p in pts]), pts, "batch")
+                cmp(f([tuple(map(num, p)) for p in pts]), pts, "batch")
                 for p in pts:
                     model.add(tuple(float(x) for x in p))
             elif k == "vec2d":
                 pts = op[1]
-                cmp(f.eval_vectorized(np.array(pts, dtype=float)), pts, "vec2d")
+                cmp(f.eval_vectorized(np.array(pts, dtype=dt)), pts, "vec2d")
             elif k == "vec3d":
                 rows = op[1]
                 flat = [p for row in rows for p in row]
                 ctx.probe("vectorized_3d")
-                cmp(f.eval_vectorized(np.array(rows, dtype=float)), flat, "vec3d")
+                cmp(f.eval_vectorized(np.array(rows, dtype=dt)), flat, "vec3d")
             elif k == "reset":
                 f.reset_dictionary()
                 model = set()
